@@ -569,11 +569,21 @@ class ExcAnalysis:
                 return
             # membership guard
             for cond, pol in A.facts_at(n):
-                if isinstance(cond, ast.Compare) and len(cond.ops) == 1 and same_expr(cond.comparators[0], recv) \
-                        and same_expr(cond.left, idx):
-                    if (isinstance(cond.ops[0], ast.In) and pol) or (isinstance(cond.ops[0], ast.NotIn) and not pol):
+                if isinstance(cond, ast.Compare) and len(cond.ops) == 1 and same_expr(cond.left, idx) and \
+                        ((isinstance(cond.ops[0], ast.In) and pol) or (isinstance(cond.ops[0], ast.NotIn) and not pol)):
+                    if same_expr(cond.comparators[0], recv):
                         ob(n, 'subscript', 'KeyError', text, discharged='membership test dominates the lookup')
                         return
+                    via = self._contains_delegate(fn, cond.comparators[0], n)
+                    if via is not None and same_expr(via, recv):
+                        ob(n, 'subscript', 'KeyError', text,
+                           discharged=f'membership test dominates the lookup (`in {ast.unparse(cond.comparators[0])}` is __contains__, which tests '
+                                      f'`in {ast.unparse(recv)}`)')
+                        return
+            why = self._enum_keyed_display(fn, recv, idx, n)
+            if why:
+                ob(n, 'subscript', 'KeyError', text, discharged=why)
+                return
             # ensured entry: an earlier statement on every path to here stores the key - `d[k] = v`, possibly under
             # `if k not in d:` (the memo idiom: absent -> stored, present -> present)
             for st in self.flow.dominating_stmts(n):
@@ -617,6 +627,77 @@ class ExcAnalysis:
             return
         ob(n, 'subscript', 'IndexError' if rt[0] in ('list', 'str', 'tuple') or idx_is_int else 'LookupError',
            text + ' with an index that is not bounded by a guard')
+
+    def _contains_delegate(self, fn: FuncInfo, container: ast.expr, node: ast.AST) -> Optional[ast.expr]:
+        """`k in <container>` where the container is an instance of a package class whose __contains__ is
+        `return <key> in self.<F>`: the expression `<container>.<F>` (for `self`: `self.<F>`), else None."""
+        t = strip_opt(self.abs.type_at(fn, container, node))
+        c = self.prog.classes.get(t[1]) if t[0] == 'cls' else None
+        m = self.prog.lookup_method(c, '__contains__') if c is not None else None
+        if m is None:
+            return None
+        body = [st for st in m.node.body if not (isinstance(st, ast.Expr) and isinstance(st.value, ast.Constant))]
+        ps = [a.arg for a in m.params()]
+        if len(body) != 1 or not isinstance(body[0], ast.Return) or len(ps) != 2:
+            return None
+        r = body[0].value
+        if not (isinstance(r, ast.Compare) and len(r.ops) == 1 and isinstance(r.ops[0], ast.In) and isinstance(r.left, ast.Name) and
+                r.left.id == ps[1] and isinstance(r.comparators[0], ast.Attribute) and isinstance(r.comparators[0].value, ast.Name) and
+                r.comparators[0].value.id == ps[0]):
+            return None
+        out = ast.Attribute(value=container, attr=r.comparators[0].attr, ctx=ast.Load())
+        return ast.copy_location(out, container)
+
+    def _enum_keyed_display(self, fn: FuncInfo, recv: ast.expr, idx: ast.expr, node: ast.AST) -> Optional[str]:
+        """`d[k]` with d a local bound once to a dict display whose keys are members of one enum E, never shrunk or rebound,
+        and k (a) one of those members, or (b) a local / parameter of type E: then, member by member, the conditions that
+        dominate the lookup are evaluated with k := member (dznverif.scenario; they may only mention k) - every member under
+        which they can all hold has to be a key."""
+        prog = self.prog
+        if not isinstance(recv, ast.Name):
+            return None
+        env = self.cg.env(fn)
+        d = env.single_def(recv.id)
+        if not isinstance(d, ast.Dict) or not d.keys or any(k is None for k in d.keys):
+            return None
+        syms = [prog.resolve_expr_symbol(fn.module, k) if isinstance(k, (ast.Name, ast.Attribute)) else None for k in d.keys]
+        if not all(isinstance(x, tuple) and x[0] == 'enum_member' for x in syms) or len({x[1].fq for x in syms}) != 1:
+            return None
+        en: ClassInfo = syms[0][1]
+        keys = {x[2] for x in syms}
+        for x in iter_own_nodes(fn.node):
+            if isinstance(x, ast.Delete) and any(isinstance(t, ast.Subscript) and isinstance(t.value, ast.Name) and t.value.id == recv.id
+                                                 for t in x.targets):
+                return None
+            if isinstance(x, ast.Call) and isinstance(x.func, ast.Attribute) and isinstance(x.func.value, ast.Name) and \
+                    x.func.value.id == recv.id and x.func.attr in ('pop', 'popitem', 'clear'):
+                return None
+        isym = prog.resolve_expr_symbol(fn.module, idx) if isinstance(idx, (ast.Name, ast.Attribute)) else None
+        if isinstance(isym, tuple) and isym[0] == 'enum_member' and isym[1] is en:
+            return f'`{recv.id}` is a local table with the key {en.name}.{isym[2]}' if isym[2] in keys else None
+        if not isinstance(idx, ast.Name) or strip_opt(self.abs.type_at(fn, idx, node)) != ('cls', en.fq) or \
+                self.abs.at(fn, idx, node).none != NO:
+            return None
+        from .scenario import Interp, EnumV, Undecided, Raised
+        conds = [(c, pol) for c, pol in self.abs.facts_at(node)
+                 if {x.id for x in ast.walk(c) if isinstance(x, ast.Name)} - set(dir(__import__('builtins'))) <= {idx.id} | {en.name}]
+        feasible = []
+        for member in en.enum_members:
+            ok = True
+            for c, pol in conds:
+                try:
+                    v = Interp(prog).eval(c, {idx.id: EnumV(en, member)}, fn, 0)
+                    if bool(Interp(prog).truth(v)) != pol:
+                        ok = False
+                        break
+                except (Undecided, Raised):
+                    continue
+            if ok:
+                feasible.append(member)
+        if all(m in keys for m in feasible):
+            return (f'`{recv.id}` is a local table keyed by {en.name}; under the conditions that dominate the lookup `{idx.id}` can only be '
+                    f'{" / ".join(feasible) or "nothing"} (each member evaluated), all of them keys')
+        return None
 
     def _unpack_of_returned_tuple(self, fn: FuncInfo, n: ast.Assign, arity: int) -> bool:
         v = n.value
@@ -1955,7 +2036,38 @@ class ExcAnalysis:
         enum_groups: Dict[str, Dict[str, str]] = {}     # subject dump -> {member: atom key}
         enum_cls: Dict[str, ClassInfo] = {}
 
+        def expand_property(e: ast.expr, depth: int = 0) -> ast.expr:
+            """`x.p` with p a property of x's class whose body is one `return <expr over self>`: that expression for x."""
+            if depth > 3 or not isinstance(e, ast.Attribute):
+                return e
+            t = strip_opt(self.abs.type_at(fn, e.value, None))
+            c = self.prog.classes.get(t[1]) if t[0] == 'cls' else None
+            m = self.prog.lookup_method(c, e.attr) if c is not None else None
+            if m is None or not m.is_property:
+                return e
+            body = [st for st in m.node.body if not (isinstance(st, ast.Expr) and isinstance(st.value, ast.Constant))]
+            if len(body) != 1 or not isinstance(body[0], ast.Return) or body[0].value is None:
+                return e
+            import copy
+            me = m.params()[0].arg if m.params() else 'self'
+            if any(isinstance(x, ast.Name) and x.id != me and isinstance(x.ctx, ast.Store) for x in ast.walk(body[0].value)):
+                return e
+            r = copy.deepcopy(body[0].value)
+
+            class Sub(ast.NodeTransformer):
+                def visit_Name(s2, nd):
+                    return copy.deepcopy(e.value) if nd.id == me else nd
+            r = Sub().visit(r)
+            ast.fix_missing_locations(r)
+            # names of the property's module must mean the same here: only enum members / attributes of the object are followed
+            for x in ast.walk(r):
+                if isinstance(x, ast.Name) and not any(x is y or ast.dump(x) == ast.dump(y) for y in ast.walk(e.value)):
+                    if self.prog.resolve_name(m.module, x.id) is not self.prog.resolve_name(fn.module, x.id):
+                        return e
+            return r
+
         def lower(e: ast.expr):
+            e = expand_property(e)
             if isinstance(e, ast.UnaryOp) and isinstance(e.op, ast.Not):
                 return ('not', lower(e.operand))
             if isinstance(e, ast.BoolOp):
